@@ -67,12 +67,14 @@ def owned(seed=0, scheduler="synchronous", **dask_kw):
         yield
 
 
-def run(cfg, seed=0, scheduler="synchronous", output_file=None, write_stages=False, **dask_kw):
+def run(cfg, seed=0, scheduler="synchronous", output_file=None, write_stages=False, to_plot=None, **dask_kw):
     import nuspacesim
 
     with owned(seed, scheduler, **dask_kw), own.quiet():
         if write_stages == "omitted":  # the keyword left out altogether (its default is "disabled")
             return nuspacesim.compute(cfg, output_file=output_file)
+        if to_plot is not None:
+            return nuspacesim.compute(cfg, output_file=output_file, write_stages=write_stages, to_plot=to_plot)
         return nuspacesim.compute(cfg, output_file=output_file, write_stages=write_stages)
 
 
